@@ -653,3 +653,19 @@ package checkers
 //@   nosafety node shapes are the subject of the C01 sweep
 //@   requires c != nil
 //@   call (*commentedOutCodeChecker).warn requires @length-guard-exact runeCount(s) >= c.minLength || contains(s, "print") || contains(s, "fmt.") || contains(s, "log.")
+
+// ---- C01 (sweep): what the regexp checkers' helpers expect of the expression they are handed; discharged at their call sites
+//@ func (*badRegexpChecker).checkAltAnchor
+//@   requires @handed-an-alternation alt.Op == syntax.OpAlt
+
+//@ func (*badRegexpChecker).checkAltDups
+//@   requires @handed-an-alternation alt.Op == syntax.OpAlt
+
+//@ func (*badRegexpChecker).checkNestedQuantifier
+//@   requires @handed-a-quantifier e.Op == syntax.OpStar || e.Op == syntax.OpPlus
+
+//@ func (*regexpSimplifyChecker).simplifyCharRange
+//@   requires @handed-a-char-range rng.Op == syntax.OpCharRange
+
+//@ func (*regexpSimplifyChecker).walkGroup
+//@   requires @handed-a-group g.Op == syntax.OpGroup || g.Op == syntax.OpCapture || g.Op == syntax.OpNamedCapture || g.Op == syntax.OpGroupWithFlags || g.Op == syntax.OpAtomicGroup
